@@ -90,6 +90,17 @@ class Impl(B.Impl):
                 met.append(rows)
         return jt, ja, met
 
+    def draw_dtypes(self, lin, vkeys):
+        """dtype per variable key of one sample drawn from the Linearization's metric (None: no metric / cannot draw)"""
+        if lin.metric is None:
+            return None
+        try:
+            with self.ift.random.Context(12345):
+                smp = lin.metric.draw_sample()
+            return {k: str(smp[k].dtype) for k in vkeys if k in smp.keys()}
+        except Exception:
+            return None
+
     def specialise(self, t, x, S, wm, pre=()):
         """Everything the property talks about, for the constant key set S (list of key indices).
         `pre`: want_metric flags of linearized calls made BEFORE the observed ones on the SAME objects (the
@@ -119,6 +130,7 @@ class Impl(B.Impl):
         lp = op(ift.Linearization.make_partial_var(loc, ck, wm))
         out["linvalp"] = np.atleast_1d(lp.val.asnumpy()).tolist()
         out["jtp"], out["jap"], out["metp"] = self.dense(lp, okeys, m)
+        out["draw0"], out["drawp"] = self.draw_dtypes(l0, vk), self.draw_dtypes(lp, vk)
         lf = op(ift.Linearization.make_var(loc, wm))
         out["linval"] = np.atleast_1d(lf.val.asnumpy()).tolist()
         out["jt"], out["ja"], out["met"] = self.dense(lf, okeys, m)
@@ -378,12 +390,24 @@ def direct(impl, t, x, S, wm, pre=()):
                           % (flat(o["met0"])[:8], flat(restrict_met(o["met"], S))[:8])))
         if o["metp"] is None or not allclose(o["metp"], restrict_met(o["met"], S)):
             fails.append(("metric_partial_var", "Linearization.make_partial_var", "metric through make_partial_var is not the restricted metric"))
+    if o.get("draw0") is not None and o.get("drawp") is not None and o["draw0"] != o["drawp"]:
+        fails.append(("metric_sampling", None, "a sample drawn from the specialised metric has the dtypes %r, from the original's restricted metric %r"
+                      % (o["draw0"], o["drawp"])))
     if is_energy(t):
         ift = impl.ift
         X = impl.point(x)
         op = impl.op(t)
         loc = X.extract(op.domain)
-        ea = ift.EnergyAdapter(loc, op, constants=[B.key(k) for k in S], want_metric=wm)
+        ck_list = [B.key(k) for k in S]
+        for cont in (tuple, set):
+            # the same constants given as a tuple / a set
+            ea2 = ift.EnergyAdapter(loc, op, constants=cont(ck_list), want_metric=wm)
+            if sorted(ea2.gradient.keys()) != sorted(vkeys) or sorted(ea2.position.keys()) != sorted(vkeys):
+                fails.append(("energy_adapter", "EnergyAdapter", "constants given as a %s: position/gradient keep the keys %r, variable keys are %r"
+                              % (cont.__name__, sorted(ea2.gradient.keys()), sorted(vkeys))))
+            elif wm and ea2.metric is not None and sorted(ea2.metric.domain.keys()) != sorted(vkeys):
+                fails.append(("energy_adapter", "EnergyAdapter", "constants given as a %s: metric domain keeps constant keys" % cont.__name__))
+        ea = ift.EnergyAdapter(loc, op, constants=ck_list, want_metric=wm)
         gk = sorted(ea.gradient.keys())
         if gk != sorted(vkeys):
             fails.append(("energy_adapter", "EnergyAdapter", "gradient has the keys %r, variable keys are %r" % (gk, vkeys)))
@@ -451,6 +475,16 @@ def vcg_complex_direct(inp):
         if (full.metric is None) != (part.metric is None):
             fails.append(("metric", "const=%s: metric present for one of original / specialised only" % cst))
         elif full.metric is not None:
+            def draw(m):
+                try:
+                    with ift.random.Context(int(seed) + 99):
+                        return str(m.draw_sample()[var].dtype)
+                except Exception as e:
+                    return "raises " + type(e).__name__
+            d0, d1 = draw(full.metric), draw(part.metric)
+            if d0 != d1:
+                fails.append(("metric_sampling", "const=%s: a sample drawn from the specialised metric has dtype %s for key %s, from the original's metric %s"
+                              % (cst, d1, var, d0)))
             for _ in range(3):
                 tv = rng.normal(size=n) + (1j * rng.normal(size=n) if var == "r" else 0.0)
                 t = ift.MultiField.from_dict({var: ift.Field.from_raw(dom, tv)}, domain=varloc.domain)
@@ -464,6 +498,12 @@ def vcg_complex_direct(inp):
 
 
 def vcg_complex_signature(inp, f):
+    if f[0] == "metric_sampling":
+        if f[1].startswith("const=r"):
+            # open finding C04-F3 (residual constant: _SpecialGammaEnergy samples the real inverse covariance with the
+            # residual's complex dtype); the other branch (inverse covariance constant) has its own signature
+            return {"fn": "_SpecialGammaEnergy", "check": "metric_sampling", "constant": "residual"}
+        return {"fn": "VariableCovarianceGaussianEnergy", "check": "metric_sampling", "constant": "inverse_covariance"}
     if f[0] == "value_ham":
         return {"fn": "StandardHamiltonian", "check": "value", "explained_by": "prior energy of the constant keys"}
     if f[0] == "metric" and not inp["uff"] and f[1].startswith("const=r"):
@@ -492,8 +532,9 @@ def kl_direct(inp):
         ic = ift.AbsDeltaEnergyController(1e-14, iteration_limit=200)
         H = ift.StandardHamiltonian(lh, ic_samp=ic, prior_sampling_dtype=np.float64)
         pos = ift.from_random(H.domain) * 0.4
+        cont = {"list": list, "tuple": tuple, "set": set}[inp.get("container", "list")]
         kl = ift.SampledKLEnergy(pos, H, int(inp["n_samples"]), None, mirror_samples=bool(inp["mirror"]),
-                                 constants=consts, point_estimates=pes)
+                                 constants=cont(consts), point_estimates=cont(pes))
         for stage in ("initial", "after at()"):
             if stage != "initial":
                 kl = kl.at(kl.position + 0.1 * ift.from_random(kl.position.domain))
@@ -692,7 +733,7 @@ class C04(C.Check):
         for i in range((4 if ctx.quick else 20) * budget):
             cs_, pe_ = kl_cfg[i % len(kl_cfg)]
             report({"what": "kl", "n": 2 + i % 2, "seed": ctx.seed * 100 + i, "constants": cs_, "point_estimates": pe_,
-                    "n_samples": 2 + i % 2, "mirror": i % 2 == 0, "model": i})
+                    "n_samples": 2 + i % 2, "mirror": i % 2 == 0, "model": i, "container": ["list", "tuple", "set"][i % 3]})
         # complex residuals (the Coq model is real): variable-covariance Gaussian, both keys constant in turn
         for i in range((6 if ctx.quick else 40) * budget):
             report({"what": "vcg_complex", "n": 1 + i % 3, "uff": i % 4 != 3, "wrap": ["none", "scale", "ham"][i % 3],
